@@ -75,9 +75,17 @@ func (sh *SearchHistory) Load() error {
 		return nil
 	}
 
-	err = json.Unmarshal(data, sh)
+	// Decode into a fresh value: decoding into the live struct would merge file entries
+	// into the existing ones field by field and apply partial updates before an error.
+	var loaded SearchHistory
+	err = json.Unmarshal(data, &loaded)
 	if err != nil {
 		return fmt.Errorf("failed to parse history file: %w", err)
+	}
+
+	sh.Entries = loaded.Entries
+	if loaded.MaxSize > 0 { // a missing or nonsensical maximum keeps the current one
+		sh.MaxSize = loaded.MaxSize
 	}
 
 	return nil
